@@ -426,15 +426,15 @@ MUTANTS = {"drop_app_frame": _mut_drop_app_frame, "swap_type_value": _mut_swap_t
            "metadata_only_on_poll": _mut_metadata_only_on_poll}
 
 CONDITIONS = [
-    dict(fn="convert", cubes={"quick": ["nf == %d and nv == %d and opt == %d and which == -1 and txt == 0 and big == num and src <= 1" % (f, v, o) for f in range(3) for v in (0, 2, 3) for o in range(2)] +
+    dict(fn="convert", cubes={"quick": ["nf == %d and nv == %d and opt == %d and which == -1 and txt == 0 and big == num and src in (0, 3)" % (f, v, o) for f in range(3) for v in (0, 2, 3) for o in range(2)] +
                                        ["nf == 1 and nv == 2 and nw == 2 and na == 2 and opt == 1 and num == 1 and big == 1 and src == 0 and txt == %d and which %s" % (t, r)
                                         for t in (1, 2, 3, 4) for r in ("<= 15", ">= 16")],
                               "thorough": ["nf == %d and nv == %d and opt == %d and nw == %d and src == %d and which == -1 and txt == 0" % (f, v, o, w, sr) for f in range(3) for v in range(4) for o in range(2) for w in range(3) for sr in range(4)] +
                                           ["nf == %d and nv == 2 and nw == 2 and na == 2 and opt == 1 and num == 1 and big == 1 and src == 0 and txt == %d and which %s" % (f, t, r)
                                            for f in (1, 2) for t in (1, 2, 3, 4) for r in ("<= 15", ">= 16")]},
-         twins=["reach", "mutant:drop_app_frame@nf == 1 and nv == 0 and opt == 0 and which == -1 and txt == 0 and big == num and src <= 1",
-                "mutant:swap_type_value@nf == 0 and nv == 2 and opt == 0 and which == -1 and txt == 0 and big == num and src <= 1",
-                "mutant:tuple_dropped@nf == 0 and nv == 0 and opt == 0 and which == -1 and txt == 0 and big == num and src <= 1"],
+         twins=["reach", "mutant:drop_app_frame@nf == 1 and nv == 0 and opt == 0 and which == -1 and txt == 0 and big == num and src in (0, 3)",
+                "mutant:swap_type_value@nf == 0 and nv == 2 and opt == 0 and which == -1 and txt == 0 and big == num and src in (0, 3)",
+                "mutant:tuple_dropped@nf == 0 and nv == 0 and opt == 0 and which == -1 and txt == 0 and big == num and src in (0, 3)"],
          bounds="0-2 frames, 0-3 table entries with 0-2 children, 0-2 watches (good / error, 4 sources), 0-3 attributes over 12 value shapes (scalars, tuples, list, empty), "
                 "optional fields present / absent, numeric fields from boundary pools (incl. 2^31, 2^63-1, tracepoint line -1), every string a distinct token; one string field at a time "
                 "replaced by '', non-ASCII, control characters or a long text; real protobuf classes + serialise/parse round trip"),
